@@ -1088,3 +1088,162 @@ Lemma resp_count_le_1_l : forall evs, wf_run init_w evs ->
 Proof.
   intros evs W. apply NoDup_count_occ. apply response_at_most_once_l, W.
 Qed.
+
+(* ---- T4: every address that entered the worker is dialed, refused by back-off, or
+        still scheduled ---------------------------------------------------------------- *)
+Definition InvG (s : wst) (limbo : list Z) : Prop :=
+  forall a, In a (w_asked s) ->
+    In a (w_dials s) \/ In a (w_refused s) \/ (In a (limbo ++ keys (w_dq s)) /\ tget a s <> None).
+
+Lemma invG_ext : forall s s' l,
+  w_tracked s' = w_tracked s -> w_dq s' = w_dq s -> w_dials s' = w_dials s ->
+  w_refused s' = w_refused s -> w_asked s' = w_asked s -> InvG s l -> InvG s' l.
+Proof.
+  intros s s' l Et Eq Ed Er Ea G a Ha. unfold tget. rewrite Et, Eq, Ed, Er. apply G. rewrite <- Ea. exact Ha.
+Qed.
+
+Lemma dispatch_error_invG : forall s a e bestl limbo, InvG s limbo ->
+  (e = EBackoff -> In a (w_refused s) \/ In a (w_dials s)) ->
+  InvG (dispatch_error s a e bestl) limbo.
+Proof.
+  intros s a e bestl limbo G Hb. unfold dispatch_error.
+  set (s1 := match tget a s with Some ad => tput a (ad_set_st ad DErr) s | None => s end).
+  assert (G1 : InvG s1 limbo).
+  { unfold s1. destruct (tget a s) as [ad|] eqn:Et; [|exact G].
+    intros x Hx. destruct (G x Hx) as [H|[H|[H1 H2]]]; [left; exact H | right; left; exact H|].
+    right. right. split; [exact H1|]. tg. destruct (a =? x); [discriminate | exact H2]. }
+  assert (Q : w_dials s1 = w_dials s /\ w_refused s1 = w_refused s)
+    by (unfold s1; destruct (tget a s); split; reflexivity).
+  destruct Q as [Q1 Q2].
+  destruct (disp_loop a bestl (w_pending s1)) as [keep out].
+  set (s2 := set_resps (set_pending s1 keep) (w_resps s1 ++ out)).
+  assert (G2 : InvG s2 limbo) by (eapply invG_ext; [..|exact G1]; reflexivity).
+  destruct e; try exact G2.
+  intros x Hx. destruct (G2 x Hx) as [H|[H|[H1 H2]]]; [left; exact H | right; left; exact H|].
+  destruct (Z.eq_dec x a) as [->|N].
+  - destruct (Hb eq_refl) as [H|H]; [right; left | left]; unfold s2; wprj; rewrite ?Q1, ?Q2; exact H.
+  - right. right. split; [exact H1|]. tg. destruct (a =? x) eqn:Ea; [apply Z.eqb_eq in Ea; congruence | exact H2].
+Qed.
+
+Lemma batch_loop_invG : forall bo bestl batch s,
+  InvG s (keys batch) -> InvG (batch_loop bo bestl batch s) [].
+Proof.
+  induction batch as [|[a d] r IH]; intros s G; cbn [batch_loop]; [exact G|].
+  apply IH. cbn [keys map fst] in G. fold (keys r) in G.
+  destruct (tget a s) as [ad|] eqn:Et.
+  - destruct (negb (ad_fdir ad) && memz a bo).
+    + apply dispatch_error_invG; [|intros _; left; wprj; apply in_or_app; right; left; reflexivity].
+      intros x Hx. wprj. destruct (G x Hx) as [H|[H|[H1 H2]]].
+      * left. exact H.
+      * right. left. apply in_or_app. left. exact H.
+      * cbn [app] in H1. destruct H1 as [H1|H1].
+        -- subst x. right. left. apply in_or_app. right. left. reflexivity.
+        -- right. right. split; [exact H1|]. tg. destruct (a =? x); [discriminate | exact H2].
+    + intros x Hx. wprj. destruct (G x Hx) as [H|[H|[H1 H2]]].
+      * left. apply in_or_app. left. exact H.
+      * right. left. exact H.
+      * cbn [app] in H1. destruct H1 as [H1|H1].
+        -- subst x. left. apply in_or_app. right. left. reflexivity.
+        -- right. right. split; [exact H1|]. tg. destruct (a =? x); [discriminate | exact H2].
+  - intros x Hx. destruct (G x Hx) as [H|[H|[H1 H2]]]; [left; exact H | right; left; exact H|].
+    cbn [app] in H1. destruct H1 as [H1|H1]; [subst x; congruence|]. right. right. split; assumption.
+Qed.
+
+Lemma tput_invG : forall s a ad', InvG s [] -> InvG (tput a ad' s) [].
+Proof.
+  intros s a ad' G x Hx. wprj. destruct (G x Hx) as [H|[H|[H1 H2]]]; [left; exact H | right; left; exact H|].
+  right. right. split; [exact H1|]. tg. destruct (a =? x); [discriminate | exact H2].
+Qed.
+
+Lemma on_result_invG : forall s a r bestl, InvG s [] -> r <> DRFail EBackoff ->
+  InvG (on_result s a r bestl) [].
+Proof.
+  intros s a r bestl G Hr. unfold on_result. destruct (tget a s) as [ad|] eqn:Et.
+  - assert (G2 : forall ad', InvG (tput a ad' (set_flying (set_inflight s (w_inflight s - 1)) (remove1 a (w_flying s)))) []).
+    { intros ad'. apply tput_invG. eapply invG_ext; [..|exact G]; reflexivity. }
+    destruct r as [addok|e|pub now].
+    + destruct addok.
+      * match goal with |- context [succ_loop a ?p] => destruct (succ_loop a p) as [keep out] end.
+        pose proof (tput_invG _ a (ad_set_st (ad_set_upg ad None) DConn) (G2 (ad_set_upg ad None))) as G3.
+        eapply invG_ext; [..|exact G3]; reflexivity.
+      * apply dispatch_error_invG; [apply G2 | discriminate].
+    + match goal with |- InvG (schedule ?x) [] => destruct (schedule_same x) as [_ [_ [_ [A [B [C [_ [_ [D E]]]]]]]]] end.
+      eapply invG_ext; [exact A|exact B|exact C|exact E|exact D|].
+      apply dispatch_error_invG; [apply G2 | intros ->; congruence].
+    + match goal with |- InvG (schedule ?x) [] => destruct (schedule_same x) as [_ [_ [_ [A [B [C [_ [_ [D E]]]]]]]]] end.
+      eapply invG_ext; [exact A|exact B|exact C|exact E|exact D|].
+      destruct pub; [apply tput_invG, G | exact G].
+  - eapply invG_ext; [..|exact G]; reflexivity.
+Qed.
+
+Lemma on_timer_invG : forall s bo bestl, InvG s [] -> InvG (on_timer s bo bestl) [].
+Proof.
+  intros s bo bestl G. unfold on_timer. destruct (next_batch (w_dq s)) as [batch rest] eqn:En.
+  apply next_batch_app in En.
+  match goal with |- InvG (schedule ?x) [] => destruct (schedule_same x) as [_ [_ [_ [A [B [C [_ [_ [D E]]]]]]]]] end.
+  eapply invG_ext; [exact A|exact B|exact C|exact E|exact D|]. apply batch_loop_invG.
+  intros x Hx. wprj. destruct (G x Hx) as [H|[H|[H1 H2]]]; [left; exact H | right; left; exact H|].
+  right. right. split; [|exact H2]. cbn [app] in H1. rewrite En in H1. unfold keys in *. rewrite map_app in H1. exact H1.
+Qed.
+
+Lemma join_loop_invG : forall sim rk tj s, InvG s [] -> InvG (join_loop sim rk tj s) [].
+Proof.
+  induction tj as [|a r IH]; intros s G; cbn [join_loop]; [exact G|]. apply IH.
+  destruct (tget a s) as [ad|] eqn:Et; [|exact G].
+  destruct (negb (ad_dialed ad) && sim && negb (ad_sim ad)); [|exact G].
+  intros x Hx. wprj. destruct (G x Hx) as [H|[H|[H1 H2]]]; [left; exact H | right; left; exact H|].
+  right. right. cbn [app] in *. split; [apply dq_uoa_mono, H1|]. tg. destruct (a =? x); [discriminate | exact H2].
+Qed.
+
+Lemma todial_loop_invG : forall sim fdir rk td s, InvG s [] -> InvG (todial_loop sim fdir rk td s) [].
+Proof.
+  induction td as [|a r IH]; intros s G; cbn [todial_loop]; [exact G|]. apply IH.
+  intros x Hx. wprj. cbn [app]. apply in_app_or in Hx. destruct Hx as [Hx|[Hx|[]]].
+  - destruct (G x Hx) as [H|[H|[H1 H2]]]; [left; exact H | right; left; exact H|].
+    right. right. cbn [app] in H1. split; [apply dq_add_keys; right; exact H1|].
+    tg. destruct (a =? x); [discriminate | exact H2].
+  - subst x. right. right. split; [apply dq_add_keys; left; reflexivity|]. tg. rewrite Z.eqb_refl. discriminate.
+Qed.
+
+Lemma on_request_invG : forall s rid sim fdir best rank, InvG s [] ->
+  InvG (on_request s rid sim fdir best rank) [].
+Proof.
+  intros s rid sim fdir best rank G. unfold on_request.
+  set (s0 := set_seen s (w_seen s ++ [rid])).
+  assert (G0 : InvG s0 []) by (eapply invG_ext; [..|exact G]; reflexivity).
+  assert (R : forall r, InvG (respond s0 rid r) []) by (intros r; eapply invG_ext; [..|exact G0]; reflexivity).
+  destruct best; [apply R|]. destruct rank as [rk|]; [|apply R].
+  destruct (scan s0 rk [] [] []) as [|td tj ed]; [apply R|].
+  set (s1 := set_pending s0 (w_pending s0 ++ [mkPr rid (removeall ed (nodupz (map fst rk)))])).
+  assert (X : InvG (schedule (todial_loop sim fdir rk td (join_loop sim rk tj s1))) []).
+  { match goal with |- InvG (schedule ?x) [] => destruct (schedule_same x) as [_ [_ [_ [A [B [C [_ [_ [D E]]]]]]]]] end.
+    eapply invG_ext; [exact A|exact B|exact C|exact E|exact D|].
+    apply todial_loop_invG, join_loop_invG. eapply invG_ext; [..|exact G0]; reflexivity. }
+  destruct td; destruct tj; try exact X. apply R.
+Qed.
+
+Lemma wstep_invG : forall s e, InvG s [] -> (w_stopped s = false -> wf_ev s e) -> InvG (wstep s e) [].
+Proof.
+  intros s e G W. unfold wstep. destruct (w_stopped s) eqn:St; [exact G|]. specialize (W eq_refl).
+  destruct e as [rid sim fdir best rank|bo bestl|a r bestl|].
+  - apply on_request_invG, G.
+  - apply on_timer_invG, G.
+  - destruct W as [_ W]. apply on_result_invG; auto.
+  - eapply invG_ext; [..|exact G]; reflexivity.
+Qed.
+
+Lemma wrun_invG : forall evs s, InvG s [] -> wf_run s evs -> InvG (wrun s evs) [].
+Proof.
+  induction evs as [|e r IH]; intros s A W; cbn [wrun fold_left]; [exact A|].
+  destruct W as [W1 W2]. apply IH; [apply wstep_invG; auto | exact W2].
+Qed.
+
+Lemma all_eligible_attempted_l : forall evs, wf_run init_w evs ->
+  let s := wrun init_w evs in
+  w_dq s = [] -> forall a, In a (w_asked s) -> In a (w_dials s) \/ In a (w_refused s).
+Proof.
+  intros evs W s Hq a Ha.
+  assert (G0 : InvG init_w []) by (intros x []).
+  destruct (wrun_invG evs init_w G0 W a Ha) as [H|[H|[H _]]]; [left; exact H | right; exact H|].
+  fold s in H. rewrite Hq in H. destruct H.
+Qed.
